@@ -67,8 +67,11 @@ template <typename Traits>
 inline typename Pending_List<Traits>::iterator
 Pending_List<Traits>::erase(iterator position) {
   assert(!empty());
+  PPL_VERIF_POINT("erase.0");
   iterator next = active_list.erase(position);
+  PPL_VERIF_POINT("erase.1");
   free_list.push_back(*position);
+  PPL_VERIF_POINT("erase.2");
   assert(OK());
   return next;
 }
